@@ -14,6 +14,7 @@ from fractions import Fraction
 from hypothesis import strategies as st
 
 import pendulum
+import pendulum.parsing as PP
 from pendulum import Date, DateTime, Duration, Interval, Time
 from pendulum._pendulum import parse_iso8601 as rs_parse
 from pendulum.parsing.iso8601 import parse_iso8601 as py_parse
@@ -34,7 +35,9 @@ SEEDS = ["2016-10-06T12:34:56.123456+05:30", "20161006T123456", "2016-10-06", "2
          "P1Y2M10DT2H30M/2008-05-11T15:30:00Z", "2016-10", "20161001T14", "2016-10-06T12:34:56Z", "2016-10-06T12:34:56,5-0330", "2016-280T12", "2016-10-06/2016-10-09",
          "T12:34:56+02:00", "1583-01-01", "9999-12-31T23:59:59.999999", "2016-10-06 12:34:56.789", "12:34", "2016-10-06 12:34", "2008-05-11T15:30:00Z/PT0S", "P0D/2008-05-11T15:30:00Z", "PT0S",
          # boundary spellings that ISO 8601 itself allows (end-of-day 24:00, leap second): near-valid neighbours of supported forms
-         "2016-10-06T24:00:00", "20161006T240000", "2016-10-06T24:00", "2016-12-31T23:59:60Z", "2016-02-29", "2016-366", "2015-W53-7", "2020W537", "2020-W53"]
+         "2016-10-06T24:00:00", "20161006T240000", "2016-10-06T24:00", "2016-12-31T23:59:60Z", "2016-02-29", "2016-366", "2015-W53-7", "2020W537", "2020-W53",
+         # forms only one of the two ISO parsers reads itself: the other backend reaches its value through the common-format reader
+         "20161006 12:34:56.1234567", "20161006 12:34", "2016-10-06 1:02:03.123456789", "1:02:03.1234567", "2016/10/06 12:34:56.987654321", "2016/10/06", "2016"]
 SRC = os.path.realpath(os.path.join(env.REPO, "src", "pendulum"))
 DUR_RE = re.compile(r"^P[0-9YMWDTHS.,]+\Z")
 
@@ -158,7 +161,46 @@ def oracle(s, opts):
             raise Violation(f"{nm} parse_iso8601({s!r}) raised {type(e).__name__}: {str(e)[:80]}", bucket=f"{nm}-parser:" + _bucket(e))
     if res["python"] is not None and res["rust"] is not None and res["python"] != res["rust"]:
         raise Violation(f"both parsers accept {s!r} but return different values", bucket="backends-disagree", python=res["python"], rust=res["rust"])
+    # ... and so must parse() as a whole under either backend (PENDULUM_EXTENSIONS selects which ISO parser pendulum.parsing calls first; what it
+    # rejects falls through to the common-format reader, so a string can reach its value by two different routes).  Asserted in strict mode, the
+    # mode the sentence is about; 'now' and bare times depend on the clock and are left out
+    if opts.get("strict", True) and set(s) <= ALPHABET:
+        full = {}
+        saved = PP.parse_iso8601
+        try:
+            for nm, p in (("python", py_parse), ("rust", rs_parse)):
+                PP.parse_iso8601 = p
+                try:
+                    full[nm] = pendulum.parse(s, **opts)
+                except ValueError:
+                    full[nm] = None
+                except BaseException as e:  # noqa: BLE001
+                    if isinstance(e, (KeyboardInterrupt, SystemExit)):
+                        raise
+                    raise Violation(f"parse({s!r}, **{opts}) with the {nm} ISO parser raised {type(e).__name__}: {str(e)[:80]}", bucket=f"{nm}-pipeline:" + _bucket(e))
+        finally:
+            PP.parse_iso8601 = saved
+        a, b = full["python"], full["rust"]
+        if a is not None and b is not None:
+            # a text without a date is completed with today's date (two clock readings): the time of day and offset are compared
+            dl = isinstance(a, DateTime) and isinstance(b, DateTime) and bool(DATELESS.match(s))
+            if type(a) is not type(b) or full_norm(a, dl) != full_norm(b, dl):
+                raise Violation(f"parse({s!r}, **{opts}) returns different values under the two backends", bucket="pipeline-backends-disagree", python=repr(a), rust=repr(b))
     return verdict
+
+
+DATELESS = re.compile(r"^(T|\d{1,2}:|\d{2}\Z|\d{6}([.,]\d+)?([Z+-][\d:]*)?\Z)")
+
+
+def full_norm(v, dateless=False):
+    if isinstance(v, Interval):
+        return ("iv", full_norm(v.start), full_norm(v.end))
+    if isinstance(v, DateTime):
+        tz = v.tzinfo
+        # the tzinfo's own offset field: utcoffset() itself raises for a written offset of 24 h or more, which parse() does not reject
+        off = getattr(tz, "_offset", None) if isinstance(tz, pendulum.tz.timezone.FixedTimezone) else None if tz is None else str(tz)
+        return ("dt",) + (() if dateless else (v.year, v.month, v.day)) + (v.hour, v.minute, v.second, v.microsecond, off, v.timezone_name)
+    return norm(v)
 
 
 # --------------------------------------------------------------------------- strategies
